@@ -629,6 +629,7 @@ judge_addrs_d(int h, int ia, const struct rsdur_s *d, int k, int landk, int delt
 	EX_CTR(c_skipb, "skipped:instant before 1970-01-01 (outside the property's quantifier)");
 	EX_CTR(c_skipv, "skipped:the representation has no such value (text not accepted, no name for 23:59:60, or it does not print as itself: C09/C02/C01)");
 	EX_CTR(c_skipr, "skipped:result before 1970-01-01 or after 4095-12-31");
+	EX_CTR(c_posix60, "accepted:epoch-held result on an inserted second carries the stamp of the following second (POSIX has no other name for it)");
 
 	if (!d->ok) {
 		snprintf(key, sizeof(key), "duration '%s' is not accepted", d->text);
@@ -668,6 +669,10 @@ judge_addrs_d(int h, int ia, const struct rsdur_s *d, int k, int landk, int delt
 		why = "result is not a date-time";
 	} else if (!m_tai((struct inst_s){gi, s60}, &gtai)) {
 		why = s60 ? "prints second 60 where none was inserted" : "result outside the table";
+	} else if (h == H_SEXY && m_tai_is_leap(want) && gtai == want + 1) {
+		/* an epoch stamp has no name for 23:59:60: POSIX gives the inserted second the stamp of the second
+		 * that follows it, and that is what must come out */
+		++*c_posix60;
 	} else if (gtai != want) {
 		why = gtai < want ? "too early" : "too late";
 	}
